@@ -91,7 +91,7 @@ def configs(tier):
                 for full in (False, True):
                     if full and 'return_full_data' not in _sig(entry):
                         continue
-                    for weighted in ((False, True) if entry in NODE + NODE_PURE and g == 'P3' else (False,)):
+                    for weighted in ((False, True, 'unrelated-attribute') if entry in NODE + NODE_PURE and g == 'P3' else (False,)):
                         out.append(dict(entry=entry, graph=g, ic=kind, I0=I0, R0=R0, full=full, weighted=weighted,
                                         tags=[entry, g, kind, 'full' if full else 'plain'] + (['R0'] if R0 else []) + (['weighted'] if weighted else [])
                                         + (['no-susceptible-stub'] if kind == 'sets' and _no_susceptible_stub(g, I0, R0) else [])))
@@ -301,7 +301,11 @@ def _run(h, cfg, eng, EoN, an, flow):
         kw['initial_infecteds'] = list(cfg['I0'])
         if cfg['R0']:
             kw['initial_recovereds'] = list(cfg['R0'])
-    if cfg.get('weighted'):
+    if cfg.get('weighted') == 'unrelated-attribute':
+        # networkx's conventional attribute name: it is NOT the transmission weight unless the caller says so
+        for i, (u, v) in enumerate(G.edges()):
+            G.edges[u, v]['weight'] = 2 + i
+    elif cfg.get('weighted'):
         for (u, v) in G.edges():
             G.edges[u, v]['tw'] = eng.real('w_%s_%s' % (u, v), lo=0, lo_strict=True)
         for u in G.nodes():
@@ -541,7 +545,10 @@ def replay_concrete(cfg, kind, values, decisions):
         kw['initial_infecteds'] = list(cfg['I0'])
         if cfg['R0']:
             kw['initial_recovereds'] = list(cfg['R0'])
-    if cfg.get('weighted'):
+    if cfg.get('weighted') == 'unrelated-attribute':
+        for i, (u, v) in enumerate(G.edges()):
+            G.edges[u, v]['weight'] = 2 + i
+    elif cfg.get('weighted'):
         for i, (u, v) in enumerate(G.edges()):
             G.edges[u, v]['tw'] = _num(values.get('w_%s_%s' % (u, v)), 1.0 + 0.3 * i)
         for u in G.nodes():
